@@ -5,7 +5,14 @@
    objects the codecs handle (Json/PyVal.v); `*_roundtrip v` is `json.loads(json.dumps(v, cls=Enc), cls=Dec)` in the
    model of json's tree protocol with the encoder's default() and the decoder's object_hook transcribed from /repo.
    The hypotheses are the constructors' checks as boolean predicates (objects exist only if their constructor
-   accepted them) plus "dict keys are pairwise different" (keys_distinct: it is a dict). *)
+   accepted them) plus "dict keys are pairwise different" (keys_distinct: it is a dict).
+
+   Statelessness.  In the model `encode` and `decode` are functions of the *value*: the theorems say nothing about an
+   implementation that remembers anything between calls (by object identity, per encoder instance, per class or per
+   module).  That /repo's encoders keep no such state is NOT proved; it is tested on every run by the harness's
+   operation sequences in one process (encode, change a mutable component in place, encode again; series of
+   short-lived objects with garbage collection in between; two encoder instances and json.dumps(cls=...); codecs
+   interleaved), each step judged by the same oracle: decode(encode(x)) equals x as it is now. *)
 From QV Require Import Json.JsonCheck Json.Protocol_proofs Json.Codec_proofs Json.Jssp_proofs Json.Evqe_proofs Json.Result_proofs.
 
 (* ---------------------------------------------------------------- job-shop codec *)
